@@ -19,16 +19,17 @@ ValuesT == << <<120, 32, 121>>, <<>>, <<55, 55>> >>
 
 Str(s) == [t |-> "s", s |-> s]
 Num(neg, digs, x) == [t |-> "n", neg |-> neg, digs |-> digs, x |-> x]
-\* strings over , ; " ' space and letters;  numbers: 0 1 -1.5 0.1 1e+20 1.5e-07 123456789012345 100000 0.0001 1e-05 1e+15
+\* strings over , ; " ' space and letters;  numbers: 0 1 -1.5 0.1 1e+20 1.5e-07 123456789012345 100000 0.0001 1e-05 1e+15 2.2250738585072e-308
 StrsQ == { Str(<<>>), Str(<<97>>), Str(<<44>>), Str(<<59>>), Str(<<34>>), Str(<<39>>), Str(<<32>>), Str(<<97, 44, 34, 98>>) }
 NumsQ == { Num(FALSE, <<0>>, 0), Num(FALSE, <<1>>, 0), Num(TRUE, <<1, 5>>, 0), Num(FALSE, <<1>>, -1), Num(FALSE, <<1>>, 20),
            Num(FALSE, <<1, 5>>, -7), Num(FALSE, <<1, 2, 3, 4, 5, 6, 7, 8, 9, 0, 1, 2, 3, 4, 5>>, 14), Num(FALSE, <<1>>, 5),
-           Num(FALSE, <<1>>, -4), Num(FALSE, <<1>>, -5), Num(FALSE, <<1>>, 15) }
+           Num(FALSE, <<1>>, -4), Num(FALSE, <<1>>, -5), Num(FALSE, <<1>>, 15),
+           Num(FALSE, <<2, 2, 2, 5, 0, 7, 3, 8, 5, 8, 5, 0, 7, 2>>, -308) }       \* smallest normal double: scale 1e-321
 CellsQ == StrsQ \cup NumsQ
 CellsT == CellsQ \cup { Str(<<34, 34>>), Str(<<32, 97, 32>>), Str(<<34, 44, 34>>), Str(<<97, 59, 39, 98>>),
                         Num(TRUE, <<9, 9, 9, 9, 9, 9, 9, 9, 9, 9, 9, 9, 9, 9, 9>>, 14), Num(FALSE, <<2, 5>>, 1),
                         Num(TRUE, <<1, 2, 5>>, -3), Num(FALSE, <<1, 7, 9, 7, 6, 9, 3, 1, 3, 4, 8, 6, 2, 3, 1>>, 308),
-                        Num(FALSE, <<2, 2, 2, 5, 0, 7, 3, 8, 5, 8, 5, 0, 7, 2>>, -308), Num(FALSE, <<1, 2, 3, 4, 5, 6, 7, 8, 9, 0, 1, 2, 3, 4, 5>>, -100) }
+                        Num(TRUE, <<4, 9, 4, 0, 6, 5, 6, 4, 5, 8, 4, 1, 2, 4, 7>>, -324), Num(FALSE, <<1, 2, 3, 4, 5, 6, 7, 8, 9, 0, 1, 2, 3, 4, 5>>, -100) }
 NoCells == {}
 NoLines == {}
 NoNames == {}
